@@ -1451,6 +1451,8 @@ static int cfg_parse_internal(cfg_t *cfg, int level, int force_state, cfg_opt_t 
 				if (comment)
 					free(comment);
 				comment = strdup(cfg_yylval);
+				if (!comment)
+					goto error;
 				continue;
 
 			default:
@@ -1547,7 +1549,8 @@ static int cfg_parse_internal(cfg_t *cfg, int level, int force_state, cfg_opt_t 
 				goto error;
 
 			/* Inherit last read comment */
-			cfg_opt_setcomment(opt, comment);
+			if (comment && cfg_opt_setcomment(opt, comment) != CFG_SUCCESS)
+				goto error;
 			if (comment)
 				free(comment);
 			comment = NULL;
@@ -1573,7 +1576,8 @@ static int cfg_parse_internal(cfg_t *cfg, int level, int force_state, cfg_opt_t 
 					goto error;
 
 				/* Inherit last read comment */
-				cfg_opt_setcomment(opt, comment);
+				if (comment && cfg_opt_setcomment(opt, comment) != CFG_SUCCESS)
+					goto error;
 				if (comment)
 					free(comment);
 				comment = NULL;
